@@ -763,6 +763,14 @@ def _must_raise(obs, name, f, cell, tags):
 
         obs.check(name, True)
         obs.cell(cell, f"{cell}:{type(e).__name__}@{exception_site(e, REPO)}")
+        # history: a refused call must not change the object -- the very same call has to be refused again
+        # (a refusal that overwrites fitted state, e.g. the stored NaN mask, lets the repetition through)
+        if name.startswith("transform_"):
+            try:
+                _quiet(f)
+                obs.check(name + "_again", False, "the same call was refused once and answered when repeated", tags=dict(tags, symptom="refusal_not_stable", history="repeat_refused_call"))
+            except Exception:  # noqa: BLE001
+                obs.check(name + "_again", True)
         return e, None
     obs.check(name, False, "call on data with NaNs that must be refused returned a result", tags=tags)
     return None, res
